@@ -197,6 +197,47 @@ theorem run_log_is_path (s : RSt) (hist : List RStep) :
           simp only [List.cons_append, List.nil_append, isPath, decide_true, Bool.true_and]
           exact this
 
+/-! ## no probe before the retry deadline, also when the check and the transition are separate steps (D16) -/
+
+/-- **With the deadline re-checked under the mutex, no interleaving makes a request the probe before the retry deadline in
+force at that moment** - whatever the threads looked at before, however many probes failed and re-opened the breaker in
+between. -/
+theorem probe_not_before_deadline (s : SSt) (hist : List SStep) :
+    ∀ p ∈ s.run true hist, p.2 ≤ p.1 := by
+  induction hist generalizing s with
+  | nil => intro p hp; cases hp
+  | cons st rest ih =>
+    intro p hp
+    simp only [SSt.run] at hp
+    rcases List.mem_append.mp hp with h | h
+    · cases st with
+      | check t now =>
+        simp only [SSt.step] at h
+        split at h <;> cases h
+      | act t now =>
+        simp only [SSt.step] at h
+        split at h
+        · split at h
+          · rename_i _ hc
+            simp only [List.mem_singleton] at h
+            subst h
+            rcases hc.2 with h1 | h1
+            · cases h1
+            · exact h1
+          · cases h
+        · cases h
+      | fail t now =>
+        simp only [SSt.step] at h
+        split at h <;> cases h
+    · exact ih _ p h
+
+/-- **The code before the fix did allow it** (witness): thread 1 looks at the breaker (Open, deadline 5 reached at time 7),
+thread 0 becomes the probe and fails at time 8 (new deadline 1008), then thread 1 performs its transition at time 9 - a probe
+1000 ms before the deadline. The same history is harmless once the transition re-checks the deadline. -/
+theorem stale_check_witness :
+    (({ retryAt := 5 } : SSt).run false [.check 1 7, .check 0 7, .act 0 7, .fail 0 8, .act 1 9]) = [(7, 5), (9, 1008)] ∧
+    (({ retryAt := 5 } : SSt).run true [.check 1 7, .check 0 7, .act 0 7, .fail 0 8, .act 1 9]) = [(7, 5)] := by decide
+
 example : (casRun .opn [⟨1, .opn, .halfOpen⟩, ⟨2, .opn, .halfOpen⟩, ⟨1, .halfOpen, .closed⟩]).2 =
     [⟨1, .opn, .halfOpen⟩, ⟨1, .halfOpen, .closed⟩] := by decide
 
